@@ -437,7 +437,17 @@ def private_build():
     raise vlib.MachineryError("the compiler build disappeared from the cache three times")
 
 
+def private_tmp():
+    """All scratch directories of this run go under one private root (other jobs on the machine clean
+    /tmp/aldor-verif-* while a long TLC run still needs its metadir)."""
+    import tempfile
+    root = tempfile.mkdtemp(prefix="c15-", dir=os.environ.get("VERIF_TMP", "/tmp"))
+    vlib._scratch_dirs.append(root)
+    os.environ["VERIF_TMP"] = root
+
+
 def run(chk, tier):
+    private_tmp()
     build = private_build()
     if tier == "quick":
         # the model runs and the compilations are independent: overlap them
@@ -576,6 +586,16 @@ Binding demonstration (2026-10-04, scratch worktrees of /repo under /tmp, remove
  corrupted records (checks.c15.selftest(): one accepted case, one field changed at a time, TraceSrcPosReq must reject):
    col+1, line+1 (file-line field), ln-1 ([L C] field), file name, text index, message dropped, message duplicated,
    foreign message added, abstract case with one more inserted line than rendered: all 9 rejected; the uncorrupted record accepted.
+
+ second execution: an unexpected rejection (neither required nor as-written) is re-rendered, re-compiled and re-evaluated once
+ (recheck()); one such flake was seen in 17137 thorough cases under machine load ~200 (the -M no-source run printed nothing) and did
+ not repeat; mutant m4 re-run with the recheck in place: still VIOLATED (683), nothing classified as flaky.
+
+ thorough tier measured (machine load 150-230, so wall times are 4-6x an idle machine): models 1836 s -- IncludeReq6 5.1M states,
+ IncludeAswFit6 3.7M, IncludeReqIF7 1.3M (nesting 2), IncludeReq5/AswFit5/AswPackFit 0.4-0.5M each, IncludeShiftReq3f 0.53M,
+ IncludeShiftReq4/Asw 0.2M each, all hold; replay 17137 cases (153 families x ~110 layouts) compiled in 940 s, evaluated by TLC in
+ 110 s: 7204 colovf + 339 collide + 6 eofif rejections, all exactly the as-written model; 0 others.  The same 17137 cases against
+ the three candidate patches together: 0 rejections.  C15_DEEP=1 adds IncludeReqIL7 (about 2*10^7 states).
 
  seeds: VERIF_SEED=1, 5, 777 on the unchanged tree: held (exit 0) with the three KNOWN-FINDING lines.
  coverage: IncludeReqMac runs with -coverage 1; every includer action must be generated, and taken except that AAssert/AUnknown
